@@ -9,7 +9,9 @@ here: they are regenerated from the Python source on every run (`Frequenz.Extrac
 One iteration of the `async for drift in self._timer` loop is split at its only await point into two atomic
 events, `tickStart` (timer fired: the gather is created over the series registered *now*, every one of them is
 handed `Sample(window_end, …)`) and `tickEnd` (all sinks returned: `window_end += period`, the error map is
-built).  `add`/`remove` may occur anywhere, in particular between the two.  A schedule is a `List Event`.
+built; a `ResamplingError` ends `resample()` when a series of the gather raised).  `add`/`remove`/`fail` may
+occur anywhere, in particular between the two; `restart` is the recovery of the resampling actor
+(`microgrid/_resampling.py`): remove the failed sources, call `resample()` again.  A schedule is a `List Event`.
 -/
 import Frequenz.Extracted.Resampling
 
@@ -25,6 +27,11 @@ inductive Event where
   | tickEnd
   | add (s : SeriesId)
   | remove (s : SeriesId)
+  /-- the source of `s` stops / its sink starts raising: from now on `s` fails at every tick -/
+  | fail (s : SeriesId)
+  /-- what `ComponentMetricsResamplingActor` does after `resample()` raised `ResamplingError`: remove the
+  sources named in the error (`rs`) and call `resample()` again -/
+  | restart (rs : List SeriesId)
 deriving Repr, DecidableEq
 
 /-- What the sinks observe at one tick: the timestamp and the series that received it, in gather order. -/
@@ -38,13 +45,20 @@ structure State where
   windowEnd : Int
   /-- keys of `self._resamplers` in insertion order -/
   series : List SeriesId
+  /-- registered series whose `_StreamingHelper.resample()` raises (stopped source, failing sink) -/
+  failing : List SeriesId
   /-- `some n`: a gather over `n` series is in flight -/
   inflight : Option Nat
+  /-- the series of the gather in flight that raised -/
+  raised : List SeriesId
+  /-- `resample()` ended with a `ResamplingError`; nothing happens until it is called again -/
+  stopped : Bool
   /-- the `resample()` task ended with an exception that is not a `ResamplingError` -/
   dead : Bool
 deriving Repr, DecidableEq
 
-def init (w0 : Int) : State := { windowEnd := w0, series := [], inflight := none, dead := false }
+def init (w0 : Int) : State :=
+  { windowEnd := w0, series := [], failing := [], inflight := none, raised := [], stopped := false, dead := false }
 
 /-- `add_timeseries`: refused when the source is already registered; otherwise appended (dict insertion order). -/
 def addSeries (l : List SeriesId) (s : SeriesId) : List SeriesId := if s ∈ l then l else l ++ [s]
@@ -52,50 +66,67 @@ def addSeries (l : List SeriesId) (s : SeriesId) : List SeriesId := if s ∈ l t
 /-- `remove_timeseries`: `del self._resamplers[source]`. -/
 def removeSeries (l : List SeriesId) (s : SeriesId) : List SeriesId := l.filter (· ≠ s)
 
-/-- One atomic step.  `snap = true`: the gather results are matched with the snapshot they were computed for;
-`snap = false` (pinned tree): `results[i] for i, source in enumerate(self._resamplers)` over the *current* dict —
-an `IndexError` escapes as soon as the dict is longer than the result list. -/
-def stepWith (snap : Bool) (period : Int) (st : State) (e : Event) : State × List Tick :=
+/-- One atomic step.
+`snap = true`: the gather results are matched with the snapshot they were computed for; `snap = false` (the tree
+before fix 69297d9): `results[i] for i, source in enumerate(self._resamplers)` over the *current* dict — an
+`IndexError` escapes as soon as the dict is longer than the result list.
+`advErr = true`: `_window_end += period` happens before `raise ResamplingError`, so a tick that ends with an
+error still consumes its window; `advErr = false`: only error-free ticks advance the window. -/
+def stepWith (snap advErr : Bool) (period : Int) (st : State) (e : Event) : State × List Tick :=
   match e with
-  | .add s => ({ st with series := addSeries st.series s }, [])
+  | .add s =>
+    if s ∈ st.series then (st, [])
+    else ({ st with series := st.series ++ [s], failing := st.failing.filter (· ≠ s) }, [])
   | .remove s => ({ st with series := removeSeries st.series s }, [])
+  | .fail s => ({ st with failing := s :: st.failing }, [])
+  | .restart rs => ({ st with series := st.series.filter (fun s => !rs.contains s), stopped := false }, [])
   | .tickStart =>
     if st.dead then (st, [])
+    else if st.stopped then (st, [])
     else if st.inflight.isSome then (st, [])
-    else ({ st with inflight := some st.series.length }, [{ ts := st.windowEnd, recipients := st.series }])
+    else ({ st with inflight := some st.series.length,
+                    raised := st.series.filter (fun s => st.failing.contains s) },
+          [{ ts := st.windowEnd, recipients := st.series.filter (fun s => !st.failing.contains s) }])
   | .tickEnd =>
     if st.dead then (st, [])
     else
       match st.inflight with
       | none => (st, [])
       | some n =>
-        let st' := { st with windowEnd := advanceWindowEnd st.windowEnd period, inflight := none }
-        if snap then (st', [])
-        else if n < st.series.length then ({ st' with dead := true }, [])
+        let failed := !st.raised.isEmpty
+        let w := if failed && !advErr then st.windowEnd else advanceWindowEnd st.windowEnd period
+        let st' := { st with windowEnd := w, inflight := none, raised := [] }
+        if !snap && decide (n < st.series.length) then ({ st' with dead := true }, [])
+        else if failed then ({ st' with stopped := true }, [])
         else (st', [])
 
 /-- Run a schedule, collecting what the sinks saw. -/
-def runWith (snap : Bool) (period : Int) : State → List Event → State × List Tick
+def runWith (snap advErr : Bool) (period : Int) : State → List Event → State × List Tick
   | st, [] => (st, [])
   | st, e :: es =>
-    let r := stepWith snap period st e
-    let r' := runWith snap period r.1 es
+    let r := stepWith snap advErr period st e
+    let r' := runWith snap advErr period r.1 es
     (r'.1, r.2 ++ r'.2)
 
 /-- The machine of the source tree being checked. -/
-def step (period : Int) (st : State) (e : Event) : State × List Tick := stepWith gatherOverSnapshot period st e
+def step (period : Int) (st : State) (e : Event) : State × List Tick :=
+  stepWith gatherOverSnapshot advanceOnError period st e
 
-def run (period : Int) (st : State) (es : List Event) : State × List Tick := runWith gatherOverSnapshot period st es
+def run (period : Int) (st : State) (es : List Event) : State × List Tick :=
+  runWith gatherOverSnapshot advanceOnError period st es
 
-/-- Specification side, independent of the machine: series `s` is registered after a schedule when the last
-`add`/`remove` that mentions it is an `add`. -/
-def regStep (s : SeriesId) (b : Bool) (e : Event) : Bool :=
+/-- Specification side, independent of the machine.  For one series: (is it registered, does it fail).  The last
+`add`/`remove`/`restart` that concerns it decides the registration; a new registration starts healthy. -/
+def specStep (s : SeriesId) (b : Bool × Bool) (e : Event) : Bool × Bool :=
   match e with
-  | .add s' => if s' = s then true else b
-  | .remove s' => if s' = s then false else b
+  | .add s' => if s' = s then (if b.1 then b else (true, false)) else b
+  | .remove s' => if s' = s then (false, b.2) else b
+  | .fail s' => if s' = s then (b.1, true) else b
+  | .restart rs => if rs.contains s then (false, b.2) else b
   | _ => b
 
-def registered (s : SeriesId) (es : List Event) : Bool := es.foldl (regStep s) false
+/-- (registered, failing) of series `s` after the schedule `es`. -/
+def status (s : SeriesId) (es : List Event) : Bool × Bool := es.foldl (specStep s) (false, false)
 
 /-! ### Timed simulation (used by the driver only)
 
@@ -108,6 +139,7 @@ inductive Action where
   | remove (s : SeriesId)
   | lat (s : SeriesId) (d : Int)
   | hog (d : Int)
+  | fail (s : SeriesId)
 deriving Repr
 
 structure TickRec where
@@ -122,6 +154,7 @@ structure Sim where
   finishDue : Int
   lat : List (SeriesId × Int)
   out : List TickRec
+  restarts : Nat
 deriving Repr
 
 def latOf (l : List (SeriesId × Int)) (s : SeriesId) : Int :=
@@ -135,7 +168,8 @@ def setLat (l : List (SeriesId × Int)) (s : SeriesId) (d : Int) : List (SeriesI
 def maxLat (l : List (SeriesId × Int)) (ss : List SeriesId) : Int :=
   ss.foldl (fun m s => if latOf l s > m then latOf l s else m) 0
 
-/-- Let the loop run until (strictly before) loop time `t`. -/
+/-- Let the loop run until (strictly before) loop time `t`.  A `ResamplingError` is handled the way the resampling
+actor does, at the same instant: remove the series that raised, call `resample()` again. -/
 def advanceTo (period : Int) (t : Int) : Nat → Sim → Sim
   | 0, sim => sim
   | fuel + 1, sim =>
@@ -143,17 +177,22 @@ def advanceTo (period : Int) (t : Int) : Nat → Sim → Sim
     else if sim.st.inflight.isSome then
       let e := if sim.finishDue > sim.floor then sim.finishDue else sim.floor
       if e < t then
+        let raised := sim.st.raised
         let r := step period sim.st .tickEnd
-        advanceTo period t fuel { sim with st := r.1, floor := e }
+        if r.1.stopped then
+          let r2 := step period r.1 (.restart raised)
+          advanceTo period t fuel { sim with st := r2.1, floor := e, restarts := sim.restarts + 1 }
+        else advanceTo period t fuel { sim with st := r.1, floor := e }
       else sim
     else
       let f := if sim.nextTick > sim.floor then sim.nextTick else sim.floor
       if f < t then
         let r := step period sim.st .tickStart
         let recs := r.2.map (fun tk => { fire := f, tick := tk : TickRec })
+        let recipients := (r.2.map (·.recipients)).flatten
         advanceTo period t fuel
           { sim with st := r.1, floor := f, nextTick := sim.nextTick + period,
-                     finishDue := f + maxLat sim.lat sim.st.series, out := sim.out ++ recs }
+                     finishDue := f + maxLat sim.lat recipients, out := sim.out ++ recs }
       else sim
 
 def fuelFor (period : Int) (t : Int) (sim : Sim) : Nat :=
@@ -166,12 +205,13 @@ def applyAction (period : Int) (sim : Sim) (t : Int) (a : Action) : Sim :=
   | .remove s => { sim with st := (step period sim.st (.remove s)).1 }
   | .lat s d => { sim with lat := setLat sim.lat s d }
   | .hog d => { sim with floor := if t + d > sim.floor then t + d else sim.floor }
+  | .fail s => { sim with st := (step period sim.st (.fail s)).1 }
 
 /-- A whole timed case: creation at wall time `now` / loop time `loopNow`, then the actions, then run until `endT`. -/
 def simulate (period : Int) (align : Option Int) (now loopNow : Int) (acts : List (Int × Action)) (endT : Int) : Sim :=
   let we := calculateWindowEnd now period align
   let sim0 : Sim := { st := init we.1, nextTick := firstTickTime loopNow period we.2, floor := loopNow,
-                      finishDue := loopNow, lat := [], out := [] }
+                      finishDue := loopNow, lat := [], out := [], restarts := 0 }
   let sim := acts.foldl (fun sim ta => applyAction period sim ta.1 ta.2) sim0
   advanceTo period endT (fuelFor period endT sim) sim
 
